@@ -30,7 +30,7 @@ ASSUMPTIONS = ["ref.scope: C99 6.2.1 ordinary-identifier scoping (file / functio
 SHARD_TIMEOUT = {"quick": 900, "thorough": 3600}
 NAMES = ["T", "U"]
 BLOCK_EVENTS = ["typedef", "obj", "objinit", "obj2", "enum", "enumval", "tag", "etag", "member", "label", "proto", "for",
-                "open", "close", "struct_enum", "selfinit", "sizeof_enum_init", "etagref", "forif", "ifnoelse"]
+                "open", "close", "struct_enum", "selfinit", "sizeof_enum_init", "ubitfield", "etagref", "forif", "ifnoelse"]
 NEUTRAL_EVENTS = {"open", "close", "etagref", "forif", "ifnoelse"}   # events that involve none of the tracked names
 KF_EVENTS = {"enum": "K08", "enumval": "K08", "struct_enum": "K08", "sizeof_enum_init": "K08", "label": "K08",
              "for": "K11", "selfinit": "K12", "objinit": "K12", "kr": "K13", "nested": "K13"}
@@ -70,6 +70,7 @@ class Prog:
         self.labels = set()
         self.tagkind = {}
         self.novalidate = False
+        self.std = "c99"
         self.later_typedef_in_scope = []
 
     def fresh(self, p):
@@ -77,7 +78,7 @@ class Prog:
         return f"{p}{self.uid}"
 
     def probe(self, sc, block=True):
-        for n in NAMES:
+        for n in NAMES + ["W"]:
             kind = sc.look(n)
             if kind is None:
                 continue
@@ -164,6 +165,12 @@ def apply_event(P, sc, ev, n, depth_left, rename=None):
         P.lines.append("enum %s { %s } %s;" % (name, P.fresh("EN"), P.fresh("e")))
     elif ev == "member":
         P.lines.append("struct %s { int %s; };" % (P.fresh("S"), name))
+    elif ev == "ubitfield":
+        # an unnamed bit-field whose type is the typedef name: a use of the name directly before ':'
+        if vis != "typedef":
+            return False
+        k = P.uid % 3
+        P.lines.append("struct %s { %s; int m; };" % (P.fresh("S"), [f"{name} : 3", f"const {name} : 2", f"int a : 1; {name}\n: 1"][k]))
     elif ev == "label":
         if ("L", n) in P.labels or len(sc.stack) < 2:
             return False
@@ -213,7 +220,11 @@ def apply_event(P, sc, ev, n, depth_left, rename=None):
     return True
 
 
-PSTYLES = ["int {n}", "int a0, int {n}", "void *, int {n}", "int {n}, ...", "int (*cb)(int {n}_unused), int {n}", "int {n}, char *"]
+PSTYLES = ["int {n}", "int a0, int {n}", "void *, int {n}", "int {n}, ...", "int (*cb)(int {n}_unused), int {n}", "int {n}, char *",
+           # a parenthesised typedef name in a parameter declarator is a parameter list (6.7.5.3p11) whatever precedes the '(':
+           # W stays a type in the body (probed there)
+           "int *(W), int {n}", "int (*(W)), int {n}", "int * const (W), int {n}", "int (W), int {n}, int (*(*)(W))"]
+W_STYLES = (6, 7, 8, 9)
 
 
 def build_program(u_kind, events, param=None, kr=False, nested=False, renames=None, pstyle=0):
@@ -232,6 +243,10 @@ def build_program(u_kind, events, param=None, kr=False, nested=False, renames=No
         P.lines.append("int U;")
         sc.declare("U", "obj")
     P.lines.append("int v;")
+    if pstyle in W_STYLES and param and not kr and not nested:
+        P.lines.append("typedef int W;")
+        sc.declare("W", "typedef")
+        P.std = "c2x"   # unnamed parameters in a definition: valid syntax in C99, a constraint violation before C23
     sc.push()
     pn = None
     if param:
@@ -248,7 +263,7 @@ def build_program(u_kind, events, param=None, kr=False, nested=False, renames=No
     elif param:
         P.lines.append("void f(" + PSTYLES[pstyle].format(n=pn) + ") {")
         if pstyle in (2, 5):
-            P.novalidate = True  # an unnamed parameter in a definition is a C99 constraint violation (valid syntax, valid C23)
+            P.std = "c2x"  # an unnamed parameter in a definition is a C99 constraint violation (valid syntax, valid C23)
     else:
         P.lines.append("void f(void) {")
     P.probe(sc)
@@ -392,15 +407,16 @@ def judge(u_kind, events, param=None, kr=False, nested=False, counters=None, pst
 
 
 def gcc_validate(texts):
-    """gcc -std=c99 -fsyntax-only on programs that are valid only under the expected readings."""
+    """gcc -std=c99 (c2x when parameters of a definition are unnamed) -fsyntax-only on programs that are valid only
+    under the expected readings; texts = [(text, std)]."""
     d = tempfile.mkdtemp(prefix="vf-c04-")
     bad = []
     try:
-        for i, t in enumerate(texts):
+        for i, (t, std) in enumerate(texts):
             fn = os.path.join(d, f"p{i}.c")
             with open(fn, "w") as f:
                 f.write(t)
-            r = subprocess.run(["gcc", "-std=c99", "-fsyntax-only", "-w", fn], capture_output=True, text=True)
+            r = subprocess.run(["gcc", "-std=" + std, "-fsyntax-only", "-w", fn], capture_output=True, text=True)
             if r.returncode != 0:
                 bad.append((t, r.stderr[:300]))
     finally:
@@ -489,7 +505,7 @@ def run_shard(spec):
             text = "\n".join(P.lines) + "\n"
             hs.add(int.from_bytes(hashlib.blake2b(text.encode(), digest_size=7).digest(), "big"))
             if not P.triggers or rnd.random() < 0.5:
-                texts.append(text)
+                texts.append((text, P.std))
         # validate ref.scope against gcc on a sample: a rejection is an oracle fault (dropped + counted), never a violation
         sample = rnd.sample(texts, min(spec["ngcc"], len(texts)))
         bad = gcc_validate(sample)
